@@ -5,6 +5,7 @@ from scipy.sparse import issparse
 
 from skglm.solvers.base import BaseSolver
 from skglm.utils.validation import check_group_compatible
+from skglm.utils import _verif
 
 
 EPS_TOL = 0.3
@@ -84,6 +85,9 @@ class GroupProxNewton(BaseSolver):
                 intercept_opt = 0.
 
             stop_crit = max(stop_crit, intercept_opt)
+            if _verif.ON:
+                _verif.emit("outer", solver="GroupProxNewton", t=iter,
+                            stop_crit=stop_crit, w=w, Xw=Xw)
 
             if self.verbose:
                 p_obj = datafit.value(y, w, Xw) + penalty.value(w)
@@ -128,6 +132,9 @@ class GroupProxNewton(BaseSolver):
                     intercept_opt_in = 0.
 
                 stop_crit_in = max(stop_crit_in, intercept_opt_in)
+                if _verif.ON:
+                    _verif.emit("epoch", solver="GroupProxNewton", t=iter,
+                                epoch=pn_iter, w=w, Xw=Xw)
 
                 if max(self.verbose-1, 0):
                     p_obj = datafit.value(y, w, Xw) + penalty.value(w[:n_features])
@@ -143,6 +150,12 @@ class GroupProxNewton(BaseSolver):
 
             p_obj = datafit.value(y, w, Xw) + penalty.value(w[:n_features])
             p_objs_out.append(p_obj)
+            if _verif.ON:
+                _verif.emit("outer_end", solver="GroupProxNewton", t=iter,
+                            p_obj=p_obj, w=w, Xw=Xw)
+        if _verif.ON:
+            _verif.emit("return", solver="GroupProxNewton", stop_crit=stop_crit, w=w,
+                        Xw=Xw, n_obj=len(p_objs_out))
         return w, np.asarray(p_objs_out), stop_crit
 
     def custom_checks(self, X, y, datafit, penalty):
